@@ -89,7 +89,31 @@ def h_gls(cx, models, xs, ylay, priors=None, method=None, key_order=None, correl
                     L[i, j] = cx.real('L_%d_%d' % (i, j)) * (0.2 if i != j else 1.0)
                 L[i, i] = abs(L[i, i]) + 0.5
         kw['correlated_fit'] = True
-        kw['inv_chol_cov_matrix'] = [L, keys]
+        if correlated == 'estimated':
+            # no matrix supplied: the library estimates the correlation matrix of the data and inverts it through its Cholesky factor.
+            # sym: covariance() and invert_corr_cov_cholesky() are replaced by recorders that return a symbolic correlation matrix / the symbolic
+            # lower-triangular L; what they are handed is an obligation (their own correctness is decided in C06: cov, cholinv).
+            # conc: everything real; L is recomputed with the library's functions in the harness's own (sorted-key) order of the data.
+            import pyerrors.fits as F
+            rec['est'] = {}
+            if cx.mode == 'sym':
+                Csym = np.empty((ntot, ntot), dtype=object)
+                for i in range(ntot):
+                    for j in range(i + 1):
+                        Csym[i, j] = Csym[j, i] = 1.0 if i == j else cx.real('rho_%d_%d' % (i, j))
+
+                def covariance(obs, **k):
+                    rec['est']['cov_call'] = (list(obs), dict(k))
+                    return Csym.copy()
+
+                def invert(corr, inverrdiag):
+                    rec['est']['inv_call'] = (np.asarray(corr, dtype=object), np.asarray(inverrdiag, dtype=object))
+                    return L
+                cx.patch(F, 'covariance', covariance)
+                cx.patch(F, 'invert_corr_cov_cholesky', invert)
+                rec['est']['Csym'] = Csym
+        else:
+            kw['inv_chol_cov_matrix'] = [L, keys]
     if priors:
         kw['priors'] = pri_arg
     if combined:
@@ -108,6 +132,25 @@ def h_gls(cx, models, xs, ylay, priors=None, method=None, key_order=None, correl
     cx.expect(len(res) == n_parms, 'number of parameters')
     for r in res:
         lib.check_wellformed(cx, r, 'fit-parameter')
+    if correlated == 'estimated':
+        yflat = [o for k in keys for o in yobs[k]]
+        if cx.mode == 'sym':
+            est = rec['est']
+            if cx.expect('cov_call' in est and 'inv_call' in est, 'estimated correlated fit: covariance() and invert_corr_cov_cholesky() used'):
+                obs_, kws = est['cov_call']
+                cx.expect(len(obs_) == len(yflat) and all(a is b for a, b in zip(obs_, yflat)), 'correlation matrix estimated from the data points in the order of the residuals (sorted keys)')
+                cx.expect(kws.get('correlation') is True, 'correlation=True requested', str(kws))
+                corr_, ierr_ = est['inv_call']
+                if cx.expect(corr_.shape == (ntot, ntot) and ierr_.shape == (ntot, ntot), 'shapes handed to invert_corr_cov_cholesky'):
+                    for i in range(ntot):
+                        for j in range(ntot):
+                            cx.prove_eq(corr_[i, j], est['Csym'][i, j], 'matrix inverted = estimated correlation matrix[%d,%d]' % (i, j), use_facts=False)
+                            cx.prove_eq(ierr_[i, j] * yflat[i].dvalue, 1 if i == j else 0, 'inverrdiag = diag(1 / dy)[%d,%d]' % (i, j), use_facts=False)
+        else:
+            for o in yflat:
+                o.gamma_method()
+            cr = pe.covariance(yflat, correlation=True)
+            L = pe.obs.invert_corr_cov_cholesky(cr, np.diag(1 / np.array([o.dvalue for o in yflat])))
     # ---- GLS normal equations, without inverting
     A = np.concatenate([design_matrix(MODELS[models[k]][1], n_parms, xs[k]) for k in keys])       # rows in sorted-key order
     Y = [s for k in keys for s in yspec[k]]
@@ -296,6 +339,10 @@ def jobs(tier, seed):
     S('line', [1.0, 2.0, 4.0], [E, E, E], minfail=True)
     S('line', [1.0, 2.0, 4.0], [E, E, F_], minfail=True, method='migrad')
     S('line', [1.0, 2.0, 4.0], [E, E, F_], minfail=True, method='Powell', correlated=True)
+    # correlated fits with the correlation matrix estimated from the data (wiring into covariance / invert_corr_cov_cholesky; their correctness: C06)
+    S('line', [1.0, 2.0, 4.0], [E, E, E], correlated='estimated')
+    S('line', [0.5, 1.5, 2.5], [E, F_, E], correlated='estimated', method='migrad')
+    add('gls', models={'b': 'lineA', 'a': 'lineB'}, xs={'a': [1.0, 2.0], 'b': [1.0, 3.0]}, ylay={'a': [E, E], 'b': [E, E]}, correlated='estimated', key_order=1)
     S('const', [1.0, 2.0, 3.0], [E, Ei, F_])
     S('line', [1.0, 2.0], [E, E])
     S('line', [1.0, 2.0, 4.0], [E, E, E])
@@ -348,6 +395,8 @@ def apply_canary(name):
         return mutate('pyerrors.fits', 'least_squares', 'deriv_y = -scipy.linalg.solve(hess,', 'deriv_y = scipy.linalg.solve(hess,')
     if name == 'dof':
         return mutate('pyerrors.fits', 'least_squares', 'output.dof = y_all.shape[-1] - n_parms + len(loc_priors)', 'output.dof = y_all.shape[-1] - n_parms')
+    if name == 'est-inverr':
+        return mutate('pyerrors.fits', 'least_squares', '            inverrdiag = np.diag(1 / np.asarray(dy_f))\n', '            inverrdiag = np.diag(1 / np.asarray(dy_f) ** 2)\n')
     if name == 'prior-order':
         return mutate('pyerrors.fits', 'least_squares', 'list(y_all) + loc_priors, man_grad=list(deriv_y[i])', 'loc_priors + list(y_all), man_grad=list(deriv_y[i])')
     raise KeyError(name)
@@ -360,6 +409,7 @@ def _cj(**p):
 _E = {'e|r1': [1, 2, 3, 4, 5]}
 _F = {'f|r1': [2, 4, 6, 8, 10]}
 CANARIES = [
+    dict(name='est-inverr', what='estimated correlated fit: inverse variances instead of inverse errors handed to the Cholesky inverse', jobs=_cj(models={'': 'line'}, xs={'': [1.0, 2.0, 4.0]}, ylay={'': [_E, _E, _E]}, correlated='estimated')),
     dict(name='deriv-sign', what='sign of -H^-1 M', quick=True, jobs=_cj(models={'': 'line'}, xs={'': [1.0, 2.0, 4.0]}, ylay={'': [_E, _E, _E]})),
     dict(name='hess-block', what='mixed Hessian block scaled', jobs=_cj(models={'': 'line'}, xs={'': [1.0, 2.0, 4.0]}, ylay={'': [_E, _E, _E]})),
     dict(name='dof', what='priors not counted in dof', jobs=_cj(models={'': 'line'}, xs={'': [1.0, 2.0, 3.0]}, ylay={'': [_E, _E, _E]}, priors={'0': ('obs', _F)})),
@@ -375,7 +425,7 @@ META = dict(
     bounds='models linear in 1-3 parameters, 1-2 abscissa dimensions, 2-4 (thorough 5) points, 1-2 (thorough 3) data sets with shared parameters and all key orders, priors '
            '(Obs and strings, list and dict form) on parameter subsets, methods Levenberg-Marquardt / migrad / Nelder-Mead / Powell (one contract), autograd and num_grad (one contract); '
            'data on 1-2 ensembles / replicas incl. a covariance input.',
-    outside=['convergence and accuracy of the minimisers', 'estimated (not supplied) correlation matrices (Cholesky of a symbolic matrix)', 'expected_chisquare (pinv)', 'plots',
+    outside=['convergence and accuracy of the minimisers', 'estimated (not supplied) correlation matrices: decided compositionally - here the wiring (covariance(y in residual order, correlation=True), inverrdiag = diag(1/dy), the returned factor used as W^(1/2)), in C06 covariance() and invert_corr_cov_cholesky (n = 2) themselves; an end-to-end query through the Cholesky factor of a symbolic matrix is not run', 'expected_chisquare (pinv)', 'plots',
              'p-value numerics (cdf uninterpreted; its arguments are decided)'],
     stubs=['numpy shim', 'scipy.optimize.least_squares / minimize, iminuit.minimize -> fresh stationary point of the chi-square they are given', 'scipy.linalg.solve -> A X = B',
            'autograd / numdifftools jacobian, hessian -> dual numbers', 'scipy.stats.chi2.cdf / f.cdf uninterpreted'],
